@@ -26,7 +26,7 @@ fn in_col(n: usize, cols: usize, size: usize, col: usize, idx: usize) -> bool {
 }
 
 fn pair(r: &Rec, rng: &mut Rng) -> Option<Rec> {
-    if r.code == 9021 || r.vs.is_empty() { return None; }
+    if r.code == 9021 || r.code == 9023 || r.vs.is_empty() { return None; }
     let (n, cols, size, col) = (r.ps[1] as usize, r.ps[2] as usize, r.ps[3] as usize, r.ps[5] as usize);
     let res = &r.vs[0];
     let keep = reads_dest(r.code);
